@@ -919,7 +919,7 @@ def null_model_dir_sign(W, bin_swaps=5, wei_freq=.1, seed=None):
        formal tests (such as the Kolmogorov-Smirnov test) if desired.
     '''
     rng = get_rng(seed)
-    W = W.copy()
+    W = W.astype(float)  # a float copy: the weighted probabilities P are scaled in place by float factors
     n = len(W)
     np.fill_diagonal(W, 0)  # clear diagonal
     Ap = (W > 0)  # positive adjmat
@@ -1046,7 +1046,7 @@ def null_model_und_sign(W, bin_swaps=5, wei_freq=.1, seed=None):
     rng = get_rng(seed)
     if not np.allclose(W, W.T):
         raise BCTParamError("Input must be undirected")
-    W = W.copy()
+    W = W.astype(float)  # a float copy: the weighted probabilities P are scaled in place by float factors
     n = len(W)
     np.fill_diagonal(W, 0)  # clear diagonal
     Ap = (W > 0)  # positive adjmat
